@@ -603,6 +603,10 @@ package cron
 // kept(el, off, n, ids, id): how many of the first n elements of the slice (backing array el, offset off) carry an ID other than id
 //@ pure func kept(el [int]int, off int, n int, ids [int]int, id int) int = n <= 0 ? 0 : (kept(el, off, n - 1, ids, id) + (ids[el[off + n - 1]] != id ? 1 : 0))
 
+// member(el, off, n, x): x is one of the first n elements of the slice (backing array el, offset off). Used instead of an
+// existential (forall-exists goals proved, but not stably: a renamed local was enough to lose the proof)
+//@ pure func member(el [int]int, off int, n int, x int) bool = n > 0 && (el[off + n - 1] == x || member(el, off, n - 1, x))
+
 // cdistinct: the slice elements are pairwise different objects (absolute indices into the backing array)
 //@ pure func cdistinct(el [int]int, off int, n int) bool = forall i, j :: (off <= i && i < j && j < off + n) ==> el[i] != el[j]
 
@@ -676,11 +680,14 @@ package cron
 //@   modifies c.entries
 //@   ensures [C05.remove.gone] forall k :: 0 <= k && k < len(c.entries) ==> (c.entries[k] != nil && c.entries[k].ID != id)
 //@   ensures [C05.remove.count] len(c.entries) == old(kept(region(c.entries), c.entries.off, len(c.entries), fieldmap(c.entries[0].ID), id))
-//@   ensures [C05.remove.subset] forall k :: 0 <= k && k < len(c.entries) ==> (exists j :: 0 <= j && j < old(len(c.entries)) && old(c.entries[j]) == c.entries[k])
+// what every entry carries (the entries part of inv(c)) is carried by the entries that stay
+//@   ensures [C05.remove.wf] (forall k :: 0 <= k && k < old(len(c.entries)) ==> (old(c.entries[k]).Schedule != nil && old(c.entries[k]).WrappedJob != nil)) ==> (forall k :: 0 <= k && k < len(c.entries) ==> (c.entries[k] != nil && c.entries[k].Schedule != nil && c.entries[k].WrappedJob != nil))
+//@   loop 0 invariant [C05.remove.wf.inv] (forall k :: 0 <= k && k < len(c.entries) ==> (c.entries[k].Schedule != nil && c.entries[k].WrappedJob != nil)) ==> (forall k :: 0 <= k && k < len(entries) ==> (entries[k] != nil && entries[k].Schedule != nil && entries[k].WrappedJob != nil))
+//@   ensures [C05.remove.subset] forall k :: 0 <= k && k < len(c.entries) ==> member(old(region(c.entries)), old(c.entries.off), old(len(c.entries)), c.entries[k])
 //@   loop 0 invariant -1 <= rangeindex && rangeindex < len(c.entries) && c.entries == old(c.entries) && (entries == nil || fresh(entries))
 //@   loop 0 invariant [C05.remove.count.inv] len(entries) == kept(region(c.entries), c.entries.off, rangeindex + 1, fieldmap(c.entries[0].ID), id)
 //@   loop 0 invariant [C05.remove.gone.inv] forall k :: 0 <= k && k < len(entries) ==> (entries[k] != nil && entries[k].ID != id)
-//@   loop 0 invariant forall k :: 0 <= k && k < len(entries) ==> (exists j :: 0 <= j && j <= rangeindex && c.entries[j] == entries[k])
+//@   loop 0 invariant [C05.remove.subset.inv] forall k :: 0 <= k && k < len(entries) ==> member(region(c.entries), c.entries.off, rangeindex + 1, entries[k])
 
 // startJob: the job is counted in jobWaiter BEFORE the goroutine exists; the goroutine runs exactly that job, once, and
 // reports Done after the job has returned (deferred).
